@@ -245,7 +245,7 @@ func (l sliceElemLV) load(st *State) Term { return sel(l.x.sliceElemsOf(l.base.l
 func (l sliceElemLV) store(st *State, v Term) {
 	s := l.base.load(st)
 	elem := l.x.elemOfSliceSort(s.Sort)
-	l.base.store(st, l.x.mkSlice(elem, store(l.x.sliceElemsOf(s), l.idx, v), l.x.sliceLen(s), l.x.sliceNonNil(s)))
+	l.base.store(st, l.x.mkSlice(elem, store(l.x.sliceElemsOf(s), l.idx, v), l.x.sliceLen(s), l.x.sliceNonNil(s), l.x.sliceArr(s)))
 }
 func (l sliceElemLV) typ() types.Type { return l.et }
 
